@@ -219,7 +219,7 @@ def nondegenerate(entries, variables):
     return d.all_(N[v] for v in variables)
 
 
-def job_chomsky(job, family, phase, nsym=6, length=3):
+def job_chomsky(job, family, phase, nsym=6, length=3, eps=None):
     """Chomsky exercise of the notebooks: answer = cfg_print_simple(cfg_apply_chomsky(G, phase, start_variable)), checked by
     cfg_check_chomsky against the printed reference grammar"""
     import gambatools.notebook_chomsky as NC
@@ -252,8 +252,12 @@ def job_chomsky(job, family, phase, nsym=6, length=3):
             seen = d.or_(seen, bit)
     E.assumptions.append(d.all_(list(has_rule.values()) + list(uses.values()) + [first_is_start, nondegenerate(entries, variables)]))
     E.while_bound = 60
-    FILES['ref.cfg'] = cfg_print_simple(G)
-    rp = ('chomsky', {'G': dec, 'phase': phase, 'length': length})
+    if eps is None:
+        FILES['ref.cfg'] = cfg_print_simple(G)
+    else:
+        # a grammar file that declares its own epsilon symbol (one rule per line, written by the harness)
+        FILES['ref.cfg'] = L.GStr([(TRUE, 'epsilon = %s\n' % eps)] + [(bit, '%s -> %s\n' % (X, ''.join(rhs) or eps)) for bit, X, rhs in entries])
+    rp = ('chomsky', {'G': dec, 'phase': phase, 'length': length, 'eps': eps})
     answer = job.call(MN['apply_command'], 'chomsky%d' % phase, ['ref.cfg', 'Z'], replay=rp)
     if answer is None:
         job.lifted()
@@ -294,6 +298,8 @@ def jobs(tier):
     for fam in ('indirect_nullable', 'three_vars', 'repeated_nullable') + (() if q else ('useless_cyclic',)):
         for phase in (2, 5) if q else (1, 2, 3, 4, 5):
             add('chomsky%d_%s' % (phase, fam), job_chomsky, family=fam, phase=phase, timeout=tmo)
+    add('chomsky1_repeated_nullable_eps_e', job_chomsky, family='repeated_nullable', phase=1, eps='e', timeout=tmo)
+    add('chomsky2_indirect_nullable_eps_e', job_chomsky, family='indirect_nullable', phase=2, eps='e', timeout=tmo)
     from .C12 import MINIMAL_REFS
     for ref in MINIMAL_REFS:
         for which in ('dfa_minimize', 'dfa_hopfcroft'):
@@ -383,6 +389,8 @@ def _replay_chomsky(rp):
     from gambatools.cfg_algorithms import cfg_print_simple
     from .C12 import _capture
     ref = cfg_print_simple(nat.mk_cfg(rp['G']))
+    if rp.get('eps'):
+        ref = 'epsilon = %s\n' % rp['eps'] + ''.join('%s -> %s\n' % (X, ''.join(rhs) or rp['eps']) for X, rhs in rp['G']['R'])
     try:
         answer = _apply_native('chomsky%d' % rp['phase'], [('cfg', ref)], ['Z'])
         lines = _capture(NC.cfg_check_chomsky, ref, answer, rp['phase'], 'Z', rp['length'])
